@@ -436,7 +436,15 @@ func getServer(pkg, prefix string) (*server, error) {
 			s.ob.Op = op
 			s.ob.Req = canonAny(req)
 			s.ob.Params = canonAny(params)
-			if s.cur.HandlerError != "" {
+			switch s.cur.HandlerError {
+			case "":
+			case "$not-implemented":
+				return nil, errNotImplemented
+			case "$wrapped-not-implemented":
+				return nil, fmt.Errorf("operation %s: %w", op, errNotImplemented)
+			case "$canceled":
+				return nil, context.Canceled
+			default:
 				return nil, errors.New(s.cur.HandlerError)
 			}
 			if s.cur.RespondError != nil {
